@@ -191,6 +191,15 @@ func (c *Conn) deliver(cmd redcon.Command) error {
 	if c.srv.detached == nil {
 		c.srv.flushTo(c)
 	}
+	// a member that stopped while it was handling the command (a fault at a nested delivery) sends
+	// no reply, and a caller that stopped meanwhile receives none
+	n.mu.Lock()
+	lost := n.dead[c.to] || n.dead[c.from]
+	n.mu.Unlock()
+	if lost && fault == Deliver {
+		c.out = nil
+		return &net.OpError{Op: "read", Net: "sim", Err: io.EOF}
+	}
 	switch fault {
 	case KillCallerAfter:
 		kill(c.from)
